@@ -1,7 +1,7 @@
 """C06 — integrity: pass-through to the AEAD (DESIGN §5 C06: R06.1 … R06.5)."""
 from ..prov import get_an, pp
 from .common import all_ans, where, addr_fields
-from .aeadctx import aead_sites, SiteInfo
+from .aeadctx import aead_sites, SiteInfo, check_nonce_helper
 from . import c04, c14
 
 EXPLANATION = (
@@ -11,7 +11,9 @@ EXPLANATION = (
     'head to the in-place open and copies the whole tail into the tag, and uses the input in no other way; R06.3 the '
     'encrypt call gets the aad parameter unmodified and the allocating seal places the returned tag directly after the '
     'ciphertext; R06.4 the single-shot opening functions pass ciphertext, aad and tag through unmodified; R06.5 the '
-    'AEAD verdict is never dropped (Ok is control-dependent on the AEAD returning Ok). Not decided: that the AEAD '
+    'AEAD verdict is never dropped (Ok is control-dependent on the AEAD returning Ok); R06.6 (cross-message substitution) '
+    'the nonce handed to the AEAD on both sides is helper(&base_nonce,&seq) and the helper is base XOR an injective '
+    'big-endian encoding of the counter (bit-provenance), so no two positions of one context share a nonce. Not decided: that the AEAD '
     'rejects modified input (AEAD security; trusted base).')
 TRUSTED = ['rustc MIR construction', 'aead::AeadInPlace implementations verify the tag over (nonce, aad, ciphertext)',
            'slice::split_at / to_vec / copy_from_slice semantics']
@@ -60,6 +62,14 @@ def run(ctx):
                               'plaintext is released only if the AEAD verified the tag', where(si.a, s))
     for si in esites:
         check_site_args(rep, facts, si, False)
+    # R06.6: a tag/aad taken from *another* message must not verify: necessary is that two positions of one context
+    # never share a nonce, i.e. the nonce handed to the AEAD is an injective function of the counter on both sides
+    for si in dsites + esites:
+        nv, hv, helper, hargs, bidx, sidx = c04.nonce_helper_call(si)
+        if helper is not None and len(hargs) == 2 and len(bidx) == 1 and len(sidx) == 1:
+            check_nonce_helper(rep, facts, helper, bidx[0] + 1, sidx[0] + 1, 'R06.6')
+        else:
+            rep.bad('R06.6', si.key, 'nonce-arg', pp(nv)[:200], 'nonce = helper(&self.base_nonce, &self.seq)', where(si.a, si.point))
     # R06.2 / R06.3 allocating forms, R06.4 single-shot
     # integrity does not care whether valid inputs are *accepted* (that is C01/C05/C14): strict_accept off
     n = c14.run_alloc_forms(rep, facts, alloc, strict_accept=False)
